@@ -68,6 +68,12 @@ def site_impl(I, N=None, config=None, data=None):
 def register(reg, prop):
     none = lambda I, n: None
     reg.ghost_funcs["same"] = lambda I, a, b: a is b
+    # private module-level helpers of mps_backend_impl (e.g. a tag-matching helper shared by the
+    # permute_* functions) are part of their callers' bodies: inlined, whatever they are called
+    import ast as _ast
+    for _name, _node in reg.repo.module(IMPL).defs.items():
+        if _name.startswith("_") and isinstance(_node, _ast.FunctionDef):
+            reg.policies.setdefault(f"{IMPL}:{_name}", "inline")
 
     # ==== the three helpers: out[k] == in[perm[k]] for every per-atom container ======================
     def setup_helper(tags):
